@@ -6003,8 +6003,9 @@ class FlowIRConcrete(object):
         return ret
 
     def invalidate_cache_for_component(self, comp_id):
+        # VV: the name of a component is text, not a regular expression (e.g. `dft+u`, `opt(2)`)
         self._cache.invalidate_reg_expression(r'component:.*:stage%s:%s' % (
-            comp_id[0], comp_id[1]))
+            comp_id[0], re.escape(comp_id[1])))
 
     def update_component(self, comp_id, new_flowir):
         # type: (FlowIRComponentId, DictFlowIRComponent) -> None
@@ -6034,7 +6035,7 @@ class FlowIRConcrete(object):
         if return_copy:
             return deep_copy(component)
 
-        self._cache.invalidate_reg_expression(r"component:.*:stage%s:%s" % (comp_id[0], comp_id[1]))
+        self._cache.invalidate_reg_expression(r"component:.*:stage%s:%s" % (comp_id[0], re.escape(comp_id[1])))
         return component
 
     def delete_component(self, comp_id, ignore_errors=False):
@@ -6060,7 +6061,7 @@ class FlowIRConcrete(object):
                 pass
 
             self._cache.invalidate_reg_expression(r'component:.*:stage%s:%s' % (
-                comp['stage'], comp['name']
+                comp['stage'], re.escape(comp['name'])
             ))
         except:
             if ignore_errors is False:
